@@ -31,7 +31,7 @@ RULE = (
 )
 ASSUMPTIONS = ["dictionary inputs have every key 0..n (as create_bisc_input / read_bisc_file produce)", "oracle: vf/oracle/mesh.py"]
 REQUIRED = ["calls.bisc", "calls.perm_contains_cl_patts_many_shadings", "calls.run_clean_up", "calls.to_sg_format", "calls.maximal_mesh_pattern_of_occurrence",
-            "sound.perms_checked", "complete.perms_checked", "irredundant.cells_checked", "cleanup.bases_checked", "representations.compared", "private_containment.checked"]
+            "sound.perms_checked", "complete.perms_checked", "irredundant.cells_checked", "cleanup.bases_checked", "representations.compared", "private_containment.checked", "repeat_calls.compared"]
 MIN_NONTRIVIAL = 100
 CTX = None
 MON = None
@@ -244,6 +244,18 @@ def chk_run(ctx, members, m, n):
             out_list = BM.bisc(A_list, m, n)
             out_dict = BM.bisc(A_dict, m, n)
             out_pred = BM.bisc(A_pred, m, n)
+        # the caller's data must not be altered, and asking again with the very same objects gives the same answer
+        snapshot = {k: [tuple(q) for q in v] for k, v in A_dict.items()}
+        with quiet():
+            again_dict = BM.bisc(A_dict, m, n)
+            again_list = BM.bisc(A_list, m, n)
+        ctx.ev()
+        ctx.count("repeat_calls.compared")
+        same = lambda x, y: sorted((q[0], tuple(sorted(q[1]))) for q in sg_plain(x)) == sorted((q[0], tuple(sorted(q[1]))) for q in sg_plain(y))  # noqa: E731
+        if {k: [tuple(q) for q in v] for k, v in A_dict.items()} != snapshot or len(A_list) != len(members):
+            report("run", CURRENT[0], "bisc altered the dictionary / list it was given")
+        if not same(again_dict, out_dict) or not same(again_list, out_list):
+            report("run", CURRENT[0], "a second call with the same input objects gives a different output")
         ctx.ev()
         ctx.count("representations.compared")
         a, b, c = (sorted((q[0], tuple(sorted(q[1]))) for q in sg_plain(o)) for o in (out_list, out_dict, out_pred))
